@@ -37,6 +37,8 @@ def LOOKUPS(tag):
     return {"unit": "find_mapping", "functions": ["find_mapping", "may_be_stack"], "tags": [tag], "tiers": Q}
 
 # thread_list_stream::write proved for any number of threads / mappings (loop heads desugared by the extractor, ledger 3c)
+def SYSINFO(tag):
+    return {"unit": "systeminfo", "functions": ["systeminfo_stream_write"], "tags": [tag], "tiers": Q}
 def TLIST(tag):
     return {"unit": "thread_list", "functions": ["write", "get_thread_info_by_index"], "tags": [tag], "rlimit": 100, "tiers": Q}
 
@@ -460,9 +462,11 @@ PLAN["C08"] = {
 
 PLAN["C11"] = {
     "level": "model_checking",
-    "explanation": "suspend_threads records one soft error per unattachable thread and keeps going (bounded); generate_dump keeps succeeding when any "
+    "explanation": "systeminfo_stream::write proved verbatim (Verus): whatever reading the CPU information answers, control reaches the point where the record is stored, "
+                   "and the list it was handed has then been appended with exactly that failure (nothing when nothing failed); "
+                   "suspend_threads records one soft error per unattachable thread and keeps going (bounded); generate_dump keeps succeeding when any "
                    "best-effort writer fails, leaves an unused entry and records exactly one soft error per failed step (complete relative to stubs, thorough)",
-    "verus": [{"unit": "dump", "functions": ["dump"], "tags": ["C11"], "tiers": Q}],
+    "verus": [{"unit": "dump", "functions": ["dump"], "tags": ["C11"], "tiers": Q}, SYSINFO("C11")],
     "kani": [{"tiers": Q, "jobs": 2, "timeout": 900, "harnesses": dict(K_SUSPEND_THREADS, **{"vk_suspend_thread_protocol": K_SUSPEND["vk_suspend_thread_protocol"]})},
              {"tiers": T, "jobs": 2, "timeout": 5400, "mem_gb": 24, "harnesses": K_GENERATE}],
     "native": [{"stem": "minidump_writer", "filter": "bprime_soft", "tiers": Q, "tests": {
@@ -480,7 +484,7 @@ PLAN["C18"] = {
     "explanation": "the memory-protection table and the 0-means-unset conversion of caller auxv values (Kani, complete); caller-supplied auxv values take "
                    "precedence over the kernel's for every subset of keys, the linker list of a fake target is reproduced exactly, and the raw /proc copies, "
                    "memory-info list and handle stream of a stopped child equal what /proc reports (native checks on concrete targets)",
-    "verus": [],
+    "verus": [SYSINFO("C18")],
     "kani": [{"tiers": Q, "jobs": 2, "timeout": 600, "harnesses": {
         "vk_memory_protection_table": H("C", "memory_info_list_stream::get_memory_protection"),
         "vk_direct_auxv_from": H("C", "From<DirectAuxvDumpInfo> for AuxvDumpInfo")}}],
@@ -505,7 +509,7 @@ PLAN["C01"] = {
                    "thread_names_stream::write and app_memory::write by Kani (bounded); exactly 18 entries, each through write_to_file (Kani, thorough)",
     "verus": [dict(STACK, functions=["fill_thread_stack", "memory_list_stream_write", "exception_stream_write"], tags=["C01"]),
               {"unit": "dir_section", "functions": ["new", "dump_dir_entry", "write_to_file"], "tags": ["C01"], "tiers": Q},
-              {"unit": "app_memory", "functions": ["app_memory_write"], "tags": ["C01"], "tiers": Q}, LOOKUPS("C01"), TLIST("C01"),
+              {"unit": "app_memory", "functions": ["app_memory_write"], "tags": ["C01"], "tiers": Q}, LOOKUPS("C01"), TLIST("C01"), SYSINFO("C01"),
               # "no two objects overlap ... every memory descriptor designates an object inside the image" needs the memory list
               # of a request to hold only regions recorded by THAT request: the fresh-request-state obligation of dump() ([C19])
               {"unit": "dump", "functions": ["dump"], "tags": ["C01", "C19"], "tiers": Q},
@@ -531,7 +535,7 @@ PLAN["C02"] = {
               {"unit": "maps_filter", "functions": ["is_interesting", "is_contained_in"], "tags": ["C02"], "tiers": Q},
               {"unit": "find_mapping", "functions": ["find_mapping", "find_mapping_no_bias", "may_be_stack"], "tags": ["C02"], "tiers": Q},
               {"unit": "stack_scan", "functions": ["stack_has_pointer_to_mapping"], "tags": ["C02"], "tiers": Q},
-              {"unit": "mem_writer", "functions": None, "tags": ["C02"], "tiers": Q}, TLIST("C02")],
+              {"unit": "mem_writer", "functions": None, "tags": ["C02"], "tiers": Q}, TLIST("C02"), SYSINFO("C02")],
     "kani": [{"tiers": Q, "jobs": 8, "timeout": 1200, "harnesses": dict(K_HAS_PTR, **dict(K_FIND, **{"vk_safe_to_open_table": H("B", "MappingInfo::is_mapped_file_safe_to_open", "5 concrete names")}))}],
     "native": [N_PD_TOTAL, N_TLS_C02,
                {"stem": "maps_reader", "filter": "bprime_so_version", "tiers": Q, "tests": {
